@@ -42,7 +42,8 @@ class C10(Prop):
                   "added total between the flusher's two most recent current.loads, and all such windows together never exceed what "
                   "was added; once no thread updates the counter any more (flusher between two flushes) at most one catch-up delta and then at most one zero are sent, and then nothing; every gauge flush returns "
                   "the fold of exactly the writes executed before its load; sequentially, for every history of a key: the counter, gauge "
-                  "and histogram clauses of the executable property hold on the model (presence phases = idle-once, increment sums, "
+                  "and histogram clauses of the executable property hold on the model, and composed: spec_ok holds on the model's run of every "
+                  "well-formed sequential case (presence phases = idle-once, increment sums, "
                   "absolute running-maximum differences without wrap, global bound, each histogram value in exactly one flush), timestamp "
                   "iff Aggressive; chained with C09's writer theorems: a sequential run never panics and every iteration's payloads are "
                   "the frames (LE32 len ++ body on a stream) of exactly the bodies its writer calls committed, and the stream decodes to them. "
@@ -50,14 +51,13 @@ class C10(Prop):
                   "(real threads, no scheduler) judged by the conservation identities.")
     level_note = ("SC interleaving (the code's Relaxed/Acquire/Release orderings are weaker). The registry (key -> cell map) is "
                   "not modelled: keys are independent cells. AtomicBucket/reservoir are a sequential bag (C05/C16 own their "
-                  "concurrency). NOT proved: (i) the single statement forall c, spec_ok c (run_case c) = true: for sequential cases the "
-                  "per-key conjunct is proved on the model's run (C10_spec_ok_on_model_keys) and the framing/no-panic chain "
-                  "(C10_wire_chain); missing are the flushes_ok conjunct (msgs_wf, ts_ok, one-line property of C09's rendered bodies) "
-                  "and the scheduled-case clauses (results vs ghost lists); (ii) concurrent absolutes: proved is 'no wrapped delta, "
-                  "last <= current outside the re-basing window' for increment-free programs with one flusher along hazard-free "
-                  "schedules (C10_absolute_no_wrap_hazard_free; hazard = the class pattern as a state predicate; the link to "
-                  "known_class = None is argued, not proved); the conservation identity is only sequential (with two updaters it is "
-                  "false even outside the class); (iii) idle-once suffix form: flusher between flushes (C10_idle_once_suffix) or one "
+                  "concurrency). Composed theorem for sequential cases: C10_spec_ok_on_model_seq (forall c, seq_wf c -> spec_ok (CSeq c) (run_case (CSeq c)) "
+                  "= true; seq_wf = counter values < 2^64, sampling windows within the reservoir, no newline byte in prefix/labels/key names). "
+                  "NOT proved: (i) spec_ok on the model for SCHEDULED cases (results vs ghost lists, gauge set-membership); (ii) concurrent "
+                  "absolutes: 'no wrapped delta, last <= current' for increment-free programs with one flusher on every completed run with "
+                  "known_class = None (C10_absolute_no_wrap_outside_class, via C10_known_class_none_hazard_free); the conservation identity is "
+                  "only sequential (with two updaters it is false even outside the class); runs that do not complete within the round-robin "
+                  "fuel are not covered by the class link; (iii) idle-once suffix form: flusher between flushes (C10_idle_once_suffix) or one "
                   "flush in flight (C10_idle_once_suffix_in_flight); other threads may only touch the gauge. A first absolute racing a flush or another first absolute is the open finding C10-rebase-straddle. The forwarder loop (forwarder/sync.rs Forwarder::run, incl. the lifetime of FlushState and the UDP send) is not modelled; it is "
                   "exercised end to end by a real exporter built with DogStatsDBuilder against a harness UDP socket in both tiers (judged per key: "
                   "sums, exactly one closing zero, gauge in every flush, histogram values once, timestamp iff Aggressive). "
